@@ -16,10 +16,10 @@ class ZoneCtx:
         self.name = name
         self.trans = [(t, a, b) for (t, a, b) in transitions(name, Y2000, Y2038) if abs(b - a) <= 7200]
 
-    def interesting_tods(self, rnd: random.Random) -> list[int]:
+    def interesting_tods(self, rnd: random.Random, only=None) -> list[int]:
         """wall clock times (ns of day) at and around the skipped / repeated intervals of this zone"""
         out = []
-        for (t, a, b) in rnd.sample(self.trans, min(3, len(self.trans))):
+        for (t, a, b) in ([only] if only else rnd.sample(self.trans, min(3, len(self.trans)))):
             lo, hi = (t + a, t + b) if b > a else (t + b, t + a)
             for x in (lo, hi, (lo + hi) // 2, lo - 60, hi + 60, lo + 1, hi - 1):
                 out.append((x % 86400) * NS_S)
